@@ -51,6 +51,10 @@ def value_attr(interp, obj, name):
         f = SSTR_METHODS.get(name)
         if f is not None:
             return M(obj, name, f)
+        from . import fs_model
+        f = fs_model.TEXT_METHODS.get(name)
+        if f is not None:
+            return M(obj, name, f)
     elif isinstance(obj, EnumV):
         if name == "value":
             return obj.v
